@@ -803,6 +803,22 @@ impl ExecutionState {
     /// Generate a random u64 from the current scheduler and return it.
     #[inline]
     pub fn next_u64() -> u64 {
+        // A random draw counts as a step. If the step bound has already been reached, hand control
+        // to the scheduler, which ends the execution as configured, instead of recording a step
+        // beyond the bound (a task that draws in a loop would otherwise never be stopped).
+        let bound_reached = Self::with(|state| {
+            !state.in_cleanup
+                && matches!(state.current_task, ScheduledTask::Some(_))
+                && match state.config.max_steps {
+                    MaxSteps::FailAfter(max_steps) | MaxSteps::ContinueAfter(max_steps) => {
+                        state.is_step_bound_exceeded(max_steps)
+                    }
+                    MaxSteps::None => false,
+                }
+        });
+        if bound_reached && !std::thread::panicking() {
+            thread::switch();
+        }
         Self::with(|state| {
             CurrentSchedule::push_random();
             state.scheduler.borrow_mut().next_u64()
